@@ -421,8 +421,9 @@ func (g *generatorContext) parseLiteral(lex *structLexer) (node, error) { // nol
 }
 
 func indirectType(t reflect.Type) reflect.Type {
-	if t.Kind() == reflect.Ptr || t.Kind() == reflect.Slice {
-		return indirectType(t.Elem())
+	// A named slice or pointer type can be its own element type (type L []L): stop when a type repeats.
+	for seen := map[reflect.Type]bool{}; (t.Kind() == reflect.Ptr || t.Kind() == reflect.Slice) && !seen[t]; t = t.Elem() {
+		seen[t] = true
 	}
 	return t
 }
